@@ -34,10 +34,37 @@ def run(repo: Repo, chk: Check) -> None:
     stub_off = stub_offsets(repo, chk)
     create_request(repo, chk, stub_off, fixed_tr)
     prepare_pdu(repo, chk, fixed_tr)
+    empty_trailer(repo, chk)
     provider(repo, chk)
     unwrap_args(repo, chk)
     _trim(repo, chk)
     # rename shared obligations under this property's rule names is not needed: rule ids carry the property prefix
+
+
+def empty_trailer(repo: Repo, chk: Check) -> None:
+    """get_empty_trailer(pad_length) returns, on every path, a freshly built trailer whose pad_length field is its
+    argument and whose auth_value is a zero placeholder of the signature size (nothing cached from an earlier call)."""
+    f = repo.method("_rpc._auth.AuthenticationProvider", "get_empty_trailer")
+    chk.analysed(f)
+    n = 0
+    for st, out in layout.Interp(repo, f).run(layout.self_state(repo, f)):
+        if out.kind != "return":
+            continue
+        n += 1
+        res = out.value
+        site = Site.of(f, out.node, "get_empty_trailer result")
+        ok = isinstance(res, SObj) and res.cls.name == "SecTrailer"
+        if not ok:
+            chk.ob("O2", site, False, f"get_empty_trailer returns {res!r}: not a trailer built for this call (a cached trailer carries the pad_length of an earlier request)")
+            continue
+        pl = res.fields.get("pad_length")
+        okp = isinstance(pl, Lin) and pl == Lin.atom(("field", f.params[1]))
+        chk.ob("O2", site, okp, "trailer.pad_length = the pad_length argument" if okp else f"trailer.pad_length is {pl!r}, not the pad_length argument")
+        av = res.fields.get("auth_value")
+        segs = getattr(av, "segs", [])
+        okv = len(segs) == 1 and segs[0].kind == "pad" and segs[0].byte == b"\x00"
+        chk.ob("O3", site, okv, "auth_value = zero placeholder of the signature size" if okv else f"auth_value placeholder is {av!r}")
+    chk.ob("O2", Site.of(f, construct="get_empty_trailer paths"), n >= 1, f"{n} returning path(s)")
 
 
 def stub_offsets(repo: Repo, chk: Check) -> Lin:
